@@ -9,13 +9,14 @@
 EXTENDS Ndp6Hunt, Json
 
 CONSTANTS T1, T2, T3, L1, L2, G1, V41, R1, R2, RM1, RM2,      \* members of the universes by name
+          OtherV6,                                            \* IPv6 addresses that are neither link-local unicast nor G1 (subset of GUAs)
           MaxLoops, MaxDepth, Bounded, ExportEvery
 VARIABLES bad, depth, hist
 mcvars == <<hunt, loops, routers, raCount, closed, panicked, out, ev, refHunt, refClosed, refRouters, rl, pre, bad, depth, hist>>
 
 \* t1 has two link-local addresses, t2 is address-less, t3 is known by a global and an IPv4 address
-StartChoices == {<<T1, L1>>, <<T1, L2>>, <<T2, NoIP>>, <<T3, G1>>, <<T3, V41>>, <<T3, L2>>}
-StopChoices  == {<<T1, L1>>, <<T1, G1>>, <<T1, NoIP>>, <<T2, NoIP>>, <<T2, V41>>, <<T3, L2>>}
+StartChoices == {<<T1, L1>>, <<T1, L2>>, <<T2, NoIP>>, <<T3, G1>>, <<T3, V41>>, <<T3, L2>>} \cup {<<T3, x>> : x \in OtherV6}
+StopChoices  == {<<T1, L1>>, <<T1, G1>>, <<T1, NoIP>>, <<T2, NoIP>>, <<T2, V41>>, <<T3, L2>>} \cup {<<T3, x>> : x \in OtherV6}
 RAChoices    == {<<R1, RM1, "ok">>, <<R2, RM2, "ok">>, <<R1, RM1, "badopts">>, <<R2, RM2, "nohost">>}
 OtherKinds   == {"ns-lla", "ns-gua", "na", "rs", "echo"}
 
@@ -29,6 +30,9 @@ MCNext == ~panicked /\ (~Bounded \/ depth < MaxDepth) /\
   \/ \E c \in StartChoices :
         /\ (Effective(c[2]) /\ c[1] \notin HuntMacs) => Len(loops) < MaxLoops
         /\ StartHunt(c[1], c[2]) /\ Step([a |-> "start", mac |-> c[1], ip |-> c[2]])
+  \/ \E c \in {<<T1, L1>>, <<T2, NoIP>>, <<T3, G1>>, <<T3, V41>>} :
+        /\ (Effective(c[2]) /\ c[1] \notin HuntMacs) => Len(loops) < MaxLoops
+        /\ ConcStart(c[1], c[2], 4) /\ Step([a |-> "cstart", mac |-> c[1], ip |-> c[2], n |-> 4])
   \/ \E c \in StopChoices : StopHunt(c[1], c[2]) /\ Step([a |-> "stop", mac |-> c[1], ip |-> c[2]])
   \/ ~closed /\ Close /\ Step([a |-> "close"])
   \/ \E l \in 1..Len(loops) :
